@@ -239,7 +239,8 @@ def tetraInside (v0 v1 v2 v3 x : V3 α) : Bool :=
   let l1 := det3 d b c / dt
   let l2 := det3 a d c / dt
   let l3 := det3 a b d / dt
-  le (n 0) l1 && le (n 0) l2 && le (n 0) l3 && le l1 (n 1) && le l2 (n 1) && le l3 (n 1) &&
+  -- `regular = np.linalg.det(mat) != 0`: a flat tetrahedron has no interior
+  !(eq0 dt) && le (n 0) l1 && le (n 0) l2 && le (n 0) l3 && le l1 (n 1) && le l2 (n 1) && le l3 (n 1) &&
     le (l1 + l2 + l3) (n 1)
 
 /-- `BHJM_magnet_tetrahedron` for one row: four outward-oriented triangle sheets (after the
